@@ -52,6 +52,9 @@ where
 
         self.verify_rumor_author(&rumor.pubkey, sender_credential)?;
 
+        // The id is always recomputed from the rumor's content: a pre-set id is attacker
+        // controlled and could name (and thereby overwrite) another member's stored message.
+        rumor.id = None;
         let rumor_id: EventId = rumor.id();
 
         let processed_message = super::create_processed_message_record(
